@@ -134,6 +134,17 @@ func NewUDPConn(config *AllocationConfig) *UDPConn {
 // see SetDeadline and SetReadDeadline.
 func (c *UDPConn) ReadFrom(p []byte) (n int, addr net.Addr, err error) {
 	for {
+		// The timer below fires only once: a deadline that has passed keeps
+		// failing reads until SetReadDeadline moves it.
+		if deadline := c.readDeadline.Load(); deadline != 0 && time.Now().UnixNano() >= deadline {
+			return 0, nil, &net.OpError{
+				Op:   "read",
+				Net:  c.LocalAddr().Network(),
+				Addr: c.LocalAddr(),
+				Err:  newTimeoutError("i/o timeout"),
+			}
+		}
+
 		select {
 		case ibData := <-c.readCh:
 			n := copy(p, ibData.data)
@@ -330,8 +341,10 @@ func (c *UDPConn) SetReadDeadline(t time.Time) error {
 	var d time.Duration
 	if t.Equal(noDeadline()) {
 		d = time.Duration(math.MaxInt64)
+		c.readDeadline.Store(0)
 	} else {
 		d = time.Until(t)
+		c.readDeadline.Store(t.UnixNano())
 	}
 	c.readTimer.Reset(d)
 
